@@ -10,6 +10,7 @@ import (
 	"errors"
 	"io"
 
+	"github.com/cnotch/ipchub/utils/verifhook"
 	"github.com/pion/rtp"
 )
 
@@ -124,6 +125,7 @@ func (p *Packet) Write(w io.Writer, channelConfig []int) error {
 	if _, err := w.Write(prefix[:]); err != nil {
 		return err
 	}
+	verifhook.Point("rtp.packet.write.mid", uint32(p.Channel))
 
 	// 写包数据部分
 	if _, err := w.Write(p.Data); err != nil {
